@@ -12,6 +12,14 @@ def segStep (s : St) : List String → St × String
       let r := recv s bs
       (r.1, s!"up:{showFrames r.2};buf:{Hex.render r.1.buf}")
     | none => (s, "bad-op")
+  | ["recvf", bads, h] =>
+    -- receive with upward failures: `bads` = '+'-separated hex of the frames whose handling raises ("-" = none)
+    let bad : List Bytes := (bads.splitOn "+").filterMap Hex.toBytes?
+    match (if h == "-" then some [] else Hex.toBytes? h) with
+    | some bs =>
+      let r := recvF (fun f => bad.contains f) s.buf bs
+      ({ s with buf := r.1 }, s!"up:{showFrames r.2.1};buf:{Hex.render r.1};raised:{r.2.2}")
+    | none => (s, "bad-op")
   | ["send", h] =>
     match Hex.toBytes? h with
     | some bs =>
